@@ -37,6 +37,9 @@ fn line_matches(expected: &str, actual: &str) -> bool {
 }
 
 pub struct DiffCfg {
+    /// discard programs that create more than 8 distinct ranges (range equality is identity plus an
+    /// 8-entry cache in yarel); switch off for programs that never compare ranges
+    pub range_identity_matters: bool,
     pub compare_trace: bool,
     pub gc: GcCfg,
     pub quarantine: bool,
@@ -46,12 +49,31 @@ pub struct DiffCfg {
 impl Default for DiffCfg {
     fn default() -> Self {
         DiffCfg {
+            range_identity_matters: true,
             compare_trace: true,
             gc: GcCfg::Default,
             quarantine: false,
             fuel: 3_000_000,
         }
     }
+}
+
+/// Printed values between a "<<ms" and a ">>ms" marker are an unordered enumeration (map keys,
+/// values, items): compare them as multisets by sorting each such segment.
+pub fn sort_segments(mut v: Vec<String>) -> Vec<String> {
+    let mut i = 0;
+    while i < v.len() {
+        if v[i] == "<<ms" {
+            let mut j = i + 1;
+            while j < v.len() && v[j] != ">>ms" {
+                j += 1;
+            }
+            v[i + 1..j].sort();
+            i = j;
+        }
+        i += 1;
+    }
+    v
 }
 
 pub fn is_compile_error(msgs: &[String]) -> bool {
@@ -87,7 +109,7 @@ pub fn compare_outcome(r: &RefOutcome, o: &Outcome, cfg: &DiffCfg) -> DiffVerdic
     if o.fuel_exhausted {
         return DiffVerdict::Discard("yarel instruction fuel");
     }
-    if r.distinct_ranges > 8 {
+    if cfg.range_identity_matters && r.distinct_ranges > 8 {
         return DiffVerdict::Discard("more than 8 distinct ranges");
     }
     if let End::Err(_, msgs) = &o.end {
@@ -95,24 +117,26 @@ pub fn compare_outcome(r: &RefOutcome, o: &Outcome, cfg: &DiffCfg) -> DiffVerdic
             return DiffVerdict::Discard("compile error");
         }
     }
-    let yout: Vec<String> = o.out.iter().map(|s| yrun::normalise_addr(s)).collect();
-    let n = r.out.len().min(yout.len());
+    let yout: Vec<String> = sort_segments(o.out.iter().map(|s| yrun::normalise_addr(s)).collect());
+    let rout = sort_segments(r.out.clone());
+    let r_out = &rout;
+    let n = r_out.len().min(yout.len());
     for i in 0..n {
-        if !line_matches(&r.out[i], &yout[i]) {
+        if !line_matches(&r_out[i], &yout[i]) {
             return DiffVerdict::Mismatch(format!(
                 "print #{} differs: expected {:?}, yarel printed {:?}",
                 i + 1,
-                r.out[i],
+                r_out[i],
                 yout[i]
             ));
         }
     }
-    if r.out.len() != yout.len() {
+    if r_out.len() != yout.len() {
         return DiffVerdict::Mismatch(format!(
             "number of prints differs: expected {}, yarel {} (first extra: {:?})",
-            r.out.len(),
+            r_out.len(),
             yout.len(),
-            if r.out.len() > n { &r.out[n] } else { &yout[n] }
+            if r_out.len() > n { &r_out[n] } else { &yout[n] }
         ));
     }
     match (&r.end, &o.end) {
